@@ -159,7 +159,7 @@ func buildSource(t testing.TB, seed int64, ops []c20Op) *c20Source {
 			_, _ = tp.Service.AppMetadataSend(ctx, &protocoltypes.AppMetadataSend_Request{GroupPk: g1.PublicKey, Payload: []byte("group metadata")})
 		case "deactivate-G1":
 			_, _ = tp.Service.DeactivateGroup(ctx, &protocoltypes.DeactivateGroup_Request{GroupPk: g1.PublicKey})
-		case "fork-G1":
+		case "fork-G1", "fork2-G1":
 			// another member writes to G1 without having seen this node's entries (a concurrent branch): its
 			// entries reach this node through the stores' replication path, after which both logs have two heads
 			svc.lock.RLock()
@@ -181,6 +181,11 @@ func buildSource(t testing.TB, seed int64, ops []c20Op) *c20Source {
 			vmust(err)
 			_, err = sgc.MessageStore().AddMessage(ctx, []byte("message of another member, concurrent branch"))
 			vmust(err)
+			if op == "fork2-G1" {
+				// a longer concurrent branch: its head has a later clock than this node's
+				_, err = sgc.MessageStore().AddMessage(ctx, []byte("second message of another member, concurrent branch"))
+				vmust(err)
+			}
 			side.deliver(gc.MetadataStore(), logHashes(sgc.MetadataStore()))
 			side.deliver(gc.MessageStore(), logHashes(sgc.MessageStore()))
 			// the active group context answers the new member's announcement by sending it its chain key
@@ -420,6 +425,8 @@ func TestVerifC20(t *testing.T) {
 	// forked logs need a message of this node and the concurrent branch: depth 3 histories, always included
 	// a contact group that was opened, whose contact is then blocked / whose request is still pending
 	hists = append(hists, []c20Op{"contact-request", "contact-activate"}, []c20Op{"contact-request", "contact-activate", "contact-block"})
+	// branches of different lengths: the heads of the forked log carry different clocks
+	hists = append(hists, []c20Op{"join-activate-G1", "message-G1", "message-G1", "fork-G1"}, []c20Op{"join-activate-G1", "message-G1", "fork2-G1"})
 	hists = append(hists, []c20Op{"join-activate-G1", "message-G1", "fork-G1"}, []c20Op{"join-activate-G1", "fork-G1", "message-G1"}, []c20Op{"join-activate-G1", "fork-G1", "fork-G1"})
 	var wg sync.WaitGroup
 	sem := make(chan struct{}, 8)
